@@ -3,7 +3,7 @@
    harness drives real readers and writers that move 1 byte, random short pieces or
    everything, with interruptions, and failures injected at every offset, and replays each
    reader run on the model's chunked reader event by event). *)
-From PV Require Import Base MachineInt DataModel Ser De SerFlavors DeFlavors IoChunks Simulation IoFacts IoChunkFacts StorageDecl GenStorages StorageInterp StorageFacts.
+From PV Require Import Base MachineInt DataModel Ser De SerFlavors DeFlavors IoChunks Simulation IoFacts IoChunkFacts StorageDecl GenStorages StorageInterp StorageFacts VarintParams IoReaderDecl GenIoReaders IoReaderSrc IoReaderFacts.
 Open Scope N_scope.
 
 (* writing through a writer produces exactly the plain encoding *)
@@ -107,6 +107,19 @@ Theorem C11_writers_are_the_source : forall w impl, impl = nm_io_Write \/ impl =
   sf_finalize writer_flavor w = unwriter_out (run_method impl nm_finalize (SWriter w) ANone).
 Proof. exact writers_are_source. Qed.
 
+(* IOReader and EIOReader are the code of de/flavors.rs as matched on this run (GenIoReaders.v:
+   SlidingBuffer::new / size / take_n / complete and the readers' new / pop / size_hint / try_take_n /
+   finalize token for token up to renaming of locals; the comparison and the error kinds are the
+   holes): pop reads exactly one byte and maps a failed read to the error read from the source,
+   try_take_n refuses when the scratch space left compares as the source says and then reads
+   exactly ct bytes - over the whole-read reader and over the reader that delivers in chunks *)
+Theorem C11_readers_are_the_source : forall s ct rp, rp = ioreader_src \/ rp = eioreader_src ->
+  io_pop s = io_pop_with rp s /\ io_take_n ct s = io_take_n_with sliding_src rp ct s.
+Proof. exact ioreader_is_source. Qed.
+Theorem C11_chunked_readers_are_the_source : forall s ct rp, rp = ioreader_src \/ rp = eioreader_src ->
+  cio_pop s = cio_pop_with rp s /\ cio_take_n ct s = cio_take_n_with sliding_src rp ct s.
+Proof. exact chunked_ioreader_is_source. Qed.
+
 Print Assumptions C11_to_io_is_encode.
 Print Assumptions C11_to_io_failure.
 Print Assumptions C11_writer_prefix.
@@ -118,3 +131,5 @@ Print Assumptions C11_any_schedule_total.
 Print Assumptions C11_any_write_chunking_is_encode.
 Print Assumptions C11_any_write_schedule_total.
 Print Assumptions C11_writers_are_the_source.
+Print Assumptions C11_readers_are_the_source.
+Print Assumptions C11_chunked_readers_are_the_source.
